@@ -80,6 +80,7 @@ TX == /\ IsEv("X") /\ Consume
          \/ (Ev.kind = "kill" /\ XKill(Ev.p, Ev.ns, Ev.v))
 \* a cgroup emptied in the middle of a run (injected by the driver right before one of the plugin's file opens)
 TEmpty == IsEv("KEmpty") /\ Consume /\ KEmpty(Ev.p)
+TGone == IsEv("KGone") /\ Consume /\ KGone(Ev.p)
 TProcs == IsEv("ProcsOpen") /\ Consume /\ ProcsOpen(Ev.p, SeqToSet(Ev.pids))
 \* the 1 s breather between rounds shows up as a later timestamp on the next kill
 TKill == IsEv("Kill") /\ Consume /\ Ev.t = know /\ Signal(Ev.pid, Ev.sig, Ev.ok)
@@ -123,7 +124,7 @@ TSilent == KSilent /\ UNCHANGED l
 
 TraceNext ==
   \/ TReset \/ TEnv \/ TRun \/ TRet \/ TStat \/ TEnd \/ TSkip \/ THookFire \/ THookPoll
-  \/ THookDestroy \/ TSReset \/ TDbus \/ TSKmsg \/ TSRet \/ TTeardown \/ TClock \/ TX \/ TProcs \/ TKill \/ TReap \/ TCtl \/ TKmsg \/ TEmpty \/ TSilent
+  \/ THookDestroy \/ TSReset \/ TDbus \/ TSKmsg \/ TSRet \/ TTeardown \/ TClock \/ TX \/ TProcs \/ TKill \/ TReap \/ TCtl \/ TKmsg \/ TEmpty \/ TGone \/ TSilent
 
 TraceSpec == TraceInit /\ [][TraceNext /\ AuxStep]_tvars
 
